@@ -21,7 +21,7 @@
    Proofs/EditReadOnly.v), a non-vacuity example, and Print Assumptions. *)
 From Coq Require Import ZArith List Bool Permutation.
 From FT Require Import Base.Dict Model.Edit Model.EditExec Proofs.EditReadOnly.
-From FT Require Proofs.CoreTieBundle.
+From FT Require Gen.CoreQueries_gen Gen.CoreTracks_gen Proofs.CoreTieQueries Proofs.CoreTieTracks.
 Import ListNotations.
 Open Scope Z_scope.
 
@@ -105,15 +105,24 @@ Definition ex_state : state :=
             (3, [(KTime, VZ 2); (KPos, VTok 3); (KTrack, VZ 1); (KLin, VZ 1)])]
            [(1, 2, []); (2, 3, [])] None ex_feats [(1, [3; 1; 2])] [(1, [1; 2; 3])] 1 1 4.
 
-(* ---- one level further down: the queries (get_track_neighbors with its in-place sort, has_track_id_at_time,
-        next track / lineage id), the node-id counter, Tracks.undo / redo and the seven basic actions with their
-        inverses (__init__, _apply, the annotator notifications, the track-annotator bookkeeping and relabel
-        walk inlined) of the model equal the code translated on every run from data_model/solution_tracks.py,
-        data_model/tracks.py, annotators/_track_annotator.py and actions/*.py (Gen/Core_gen.v; translator
-        harness/translate_core.py, fail closed).  The statement is Proofs/CoreTieBundle.v: core_tie_statement.
-        Not translated (hand models): the regionprops / edge annotators' update, the bulk compute paths. ---- *)
-Theorem C16_core_is_generated : FT.Proofs.CoreTieBundle.core_tie_statement.
-Proof. exact FT.Proofs.CoreTieBundle.core_tie. Qed.
+(* ---- the queries are, in the model, the code translated on every run from data_model/solution_tracks.py and
+        data_model/tracks.py (Gen/CoreQueries_gen.v, Gen/CoreTracks_gen.v; translator harness/translate_core.py,
+        fail closed; Proofs/CoreTieQueries.v, CoreTieTracks.v): get_track_neighbors with its in-place sort of the
+        lookup entry, has_track_id_at_time, the next track / lineage id, and _get_new_node_ids. ---- *)
+Theorem C16_queries_are_generated :
+  (forall st T t, FT.Gen.CoreQueries_gen.gen_get_track_neighbors st T t = (let '(s', r) := track_neighbors st T t in Ok r s')) /\
+  (forall st T t, FT.Gen.CoreQueries_gen.gen_has_track_id_at_time st T t = Ok (has_track_at st T t) st) /\
+  (forall st, FT.Gen.CoreQueries_gen.gen_get_next_track_id st = Ok (next_trk st) st) /\
+  (forall st, FT.Gen.CoreQueries_gen.gen_get_next_lineage_id st = Ok (next_lin st) st) /\
+  (forall st n fuel, (S (length (nodes (g st))) <= fuel)%nat ->
+     FT.Gen.CoreTracks_gen.gen_get_new_node_ids fuel st (Z.of_nat n) = (let '(s', ids) := get_new_node_ids st n in Ok ids s')).
+Proof.
+  split; [exact FT.Proofs.CoreTieQueries.gen_get_track_neighbors_eq|].
+  split; [exact FT.Proofs.CoreTieQueries.gen_has_track_id_at_time_eq|].
+  split; [exact FT.Proofs.CoreTieQueries.gen_get_next_track_id_eq|].
+  split; [exact FT.Proofs.CoreTieQueries.gen_get_next_lineage_id_eq|].
+  exact FT.Proofs.CoreTieTracks.gen_get_new_node_ids_eq.
+Qed.
 
 Example C16_nonvacuous :
   let '(s1, r) := track_neighbors ex_state 1 1 in
@@ -145,4 +154,4 @@ Print Assumptions C16_has_track_at_next_ids.
 Print Assumptions C16_run.
 Print Assumptions C16_new_ids_exception.
 Print Assumptions C16_queries_respect_ro.
-Print Assumptions C16_core_is_generated.
+Print Assumptions C16_queries_are_generated.
